@@ -172,7 +172,7 @@ Proof.
   change (EA v t). induction t using cqltype_ind2; intros src x Hx.
   - (* scalar *)
     rewrite m_encode_scalar. destruct src as [[gt g]|]; [|cbn in Hx; injection Hx as <-; reflexivity].
-    destruct gt as [s0 k|t0|?|? ?|? ?|?|]; try discriminate Hx.
+    destruct gt as [s0 k|t0|?|? ?|? ?|?| |?]; try discriminate Hx.
     + destruct g; try discriminate Hx. cbn in Hx |- *. destruct (scalar_eqb s s0); [|discriminate]. injection Hx as <-. reflexivity.
     + destruct t0; try discriminate Hx. destruct g as [?| |p|?|?|?| |?|?| |? ?]; try discriminate Hx.
       * cbn in Hx |- *. destruct (scalar_eqb s s0); [|discriminate]. injection Hx as <-. reflexivity.
@@ -353,13 +353,14 @@ Lemma dec_var_list v e gt d src : dec_var v (TList e) gt d src =
   | GSlice et => if wasNull then OK (true, GVNilSlice) else r <-! seq_body v e et src; OK (false, GVSlice (snd r))
   | GArray n et => if wasNull then OK (true, gzero gt)
                    else r <-! seq_body v e et src; if Z.of_nat n <? fst r then ERR else OK (false, GVArray (snd r ++ skipn (List.length (snd r)) (arr_elems d)))
-  | GIface => if wasNull then OK (true, GVNilIface)
+  | GIfaceN true => if wasNull then OK (true, GVNilIface) else ERR
+  | GIface | GIfaceN false => if wasNull then OK (true, GVNilIface)
               else let et := ensure_nillable (pref e) in r <-! seq_body v e et src; OK (false, GVIface (GSlice et) (GVSlice (snd r)))
   | _ => ERR
   end.
-Proof. destruct gt; reflexivity. Qed.
+Proof. destruct gt; try (match goal with m : bool |- _ => destruct m end); reflexivity. Qed.
 Lemma dec_var_set v e gt d src : dec_var v (TSet e) gt d src = dec_var v (TList e) gt d src.
-Proof. destruct gt; reflexivity. Qed.
+Proof. destruct gt; try (match goal with m : bool |- _ => destruct m end); reflexivity. Qed.
 Lemma dec_var_tuple v fs gt d src : dec_var v (TTuple fs) gt d src =
   let wasNull := src_len src =? 0 in let n := List.length fs in
   match gt with
@@ -368,11 +369,12 @@ Lemma dec_var_tuple v fs gt d src : dec_var v (TTuple fs) gt d src =
   | GSlice et => if wasNull then OK (true, GVNilSlice) else ys <-! g_fields v false fs (repeat et n) (src_bytes src); OK (false, GVSlice ys)
   | GArray m et => if wasNull then OK (true, gzero gt)
                    else ys <-! g_fields v false fs (repeat et m) (src_bytes src); OK (false, GVArray (ys ++ skipn n (arr_elems d)))
-  | GIface => if wasNull then OK (true, GVNilIface)
+  | GIfaceN true => if wasNull then OK (true, GVNilIface) else ERR
+  | GIface | GIfaceN false => if wasNull then OK (true, GVNilIface)
               else ys <-! g_fields v false fs (repeat GIface n) (src_bytes src); OK (false, GVIface (GSlice GIface) (GVSlice ys))
   | _ => ERR
   end.
-Proof. destruct gt; reflexivity. Qed.
+Proof. destruct gt; try (match goal with m : bool |- _ => destruct m end); reflexivity. Qed.
 Lemma dec_var_udt_seq v names fs gt d src : dec_var v (TUdt names fs) gt d src =
   let wasNull := src_len src =? 0 in let n := List.length fs in
   match gt with
@@ -403,7 +405,7 @@ Proof. destruct gt; cbn; auto. Qed.
 Lemma gabs_none t : gabs t None = Some VNull.
 Proof. destruct t; reflexivity. Qed.
 Lemma elem_src_accepts e t' g : accepts e t' = true -> elem_src t' g = Some (t', g).
-Proof. destruct t'; try reflexivity. destruct e; discriminate. Qed.
+Proof. destruct t'; try reflexivity; destruct e; discriminate. Qed.
 
 Lemma gabs_nilptr e t' : accepts e t' = true -> gabs e (Some (GPtr t', GVNilPtr)) = Some VNull.
 Proof. intro H. destruct e; destruct t'; try discriminate H; try reflexivity. cbn in H |- *. rewrite H. reflexivity. Qed.
@@ -441,10 +443,10 @@ Proof.
   assert (Hcase: forall t', et = GPtr t' \/ (forall t'', et <> GPtr t'') -> True) by trivial.
   destruct (isnull x) eqn:Hx.
   - destruct x; try discriminate Hx.
-    destruct et as [s k|t'|t'|n t'|kt vt|sfs|].
+    destruct et as [s k|t'|t'|n t'|kt vt|sfs| |mm].
     2:{ exists GVNilPtr. cbn [dec_elem_with]. rewrite (Dn t' (gzero t') o Hm (accepts_imp_dest _ _ Hf)). cbn. split; [reflexivity|apply gabs_nilptr; exact Hf]. }
     all: destruct Hf as (Hn & Ha); eexists; cbn [dec_elem_with]; rewrite (Dn _ _ o Hm Ha); cbn [bindo fst snd]; split; [reflexivity|apply gabs_zero_nilable; assumption].
-  - destruct et as [s k|t'|t'|n t'|kt vt|sfs|].
+  - destruct et as [s k|t'|t'|n t'|kt vt|sfs| |mm].
     2:{ destruct Hf as (Ha & Hf). destruct (Dv t' o x Hm Hx Hf) as (g' & Hd & Hg). exists (GVPtr g'). cbn [dec_elem_with]. rewrite Hd. cbn. split; [reflexivity|].
         rewrite (gabs_ptr e t' g' Ha). rewrite (elem_src_accepts e t' g' Ha) in Hg. exact Hg. }
     all: destruct (Dv _ o x Hm Hx Hf) as (g' & Hd & Hg); exists g'; cbn [dec_elem_with]; rewrite Hd; cbn [bindo fst snd]; split; [reflexivity|exact Hg].
@@ -693,14 +695,15 @@ Lemma dec_var_map v k w gt d src : dec_var v (TMap k w) gt d src =
   let wasNull := src_len src =? 0 in
   match gt with
   | GMap kt vt => if wasNull then OK (true, GVNilMap) else m <-! map_body v k w kt vt (map_entries d) src; OK (false, GVMap m)
-  | GIface => if wasNull then OK (true, GVNilIface)
+  | GIfaceN true => if wasNull then OK (true, GVNilIface) else ERR
+  | GIface | GIfaceN false => if wasNull then OK (true, GVNilIface)
               else match pref (TMap k w) with
                    | GMap kt vt => m <-! map_body v k w kt vt [] src; OK (false, GVIface (GMap kt vt) (GVMap m))
                    | _ => ERR
                    end
   | _ => ERR
   end.
-Proof. destruct gt; reflexivity. Qed.
+Proof. destruct gt; try (match goal with m : bool |- _ => destruct m end); reflexivity. Qed.
 
 Lemma dec_var_udt v names fs gt d src : dec_var v (TUdt names fs) gt d src =
   let wasNull := src_len src =? 0 in let n := List.length fs in
@@ -719,12 +722,13 @@ Lemma dec_var_udt v names fs gt d src : dec_var v (TUdt names fs) gt d src =
   | GSlice et => if wasNull then OK (true, GVNilSlice) else ys <-! g_fields v true fs (repeat et n) (src_bytes src); OK (false, GVSlice ys)
   | GArray m et => if wasNull then OK (true, gzero gt)
                    else ys <-! g_fields v true fs (repeat et m) (src_bytes src); OK (false, GVArray (ys ++ skipn n (arr_elems d)))
-  | GIface => if wasNull then OK (true, GVNilIface)
+  | GIfaceN true => if wasNull then OK (true, GVNilIface) else ERR
+  | GIface | GIfaceN false => if wasNull then OK (true, GVNilIface)
               else ys <-! g_fields v true fs (repeat GIface n) (src_bytes src);
                    OK (false, GVIface (GMap string_ty GIface) (GVMap (fold_left (fun m ny => map_set m (name_key (fst ny)) (snd ny)) (combine names ys) [])))
   | _ => ERR
   end.
-Proof. destruct gt; reflexivity. Qed.
+Proof. destruct gt; try (match goal with m : bool |- _ => destruct m end); reflexivity. Qed.
 
 Definition NPV (v : Z) (t : cqltype) : Prop := forall gt d src, dec_var v t gt d src <> PANIC.
 
@@ -779,29 +783,24 @@ Qed.
 Lemma g_fields_np v udt fs ets src : Forall (NPV v) fs -> g_fields v udt fs ets src <> PANIC.
 Proof. intro H. unfold g_fields. apply bindo_np; [apply dec_fields_g_np; exact H|intro r; apply all_read_np]. Qed.
 
+Ltac np_step H :=
+  repeat first
+    [ discriminate
+    | apply bindo_np; [first [apply seq_body_np; assumption | apply map_body_np; assumption | apply g_fields_np; exact H]|intro]
+    | match goal with
+      | |- (if ?c then _ else _) <> PANIC => destruct c
+      | |- match ?c with _ => _ end <> PANIC => destruct c
+      end ].
+
 Theorem g_decode_no_panic v t : forall gt d src, g_decode v t gt d src <> PANIC.
 Proof.
   unfold g_decode. change (NPV v t). induction t using cqltype_ind2; intros gt d src.
   - cbn [dec_var]. apply leaf_decode_np.
-  - rewrite dec_var_list. cbv zeta. destruct gt; try discriminate; destruct (src_len src =? 0); try discriminate.
-    + apply bindo_np; [apply seq_body_np; exact IHt|discriminate].
-    + apply bindo_np; [apply seq_body_np; exact IHt|intro r]. destruct (Z.of_nat n <? fst r); discriminate.
-    + apply bindo_np; [apply seq_body_np; exact IHt|discriminate].
-  - rewrite dec_var_set, dec_var_list. cbv zeta. destruct gt; try discriminate; destruct (src_len src =? 0); try discriminate.
-    + apply bindo_np; [apply seq_body_np; exact IHt|discriminate].
-    + apply bindo_np; [apply seq_body_np; exact IHt|intro r]. destruct (Z.of_nat n <? fst r); discriminate.
-    + apply bindo_np; [apply seq_body_np; exact IHt|discriminate].
-  - rewrite dec_var_map. cbv zeta. destruct gt; try discriminate; destruct (src_len src =? 0); try discriminate.
-    + apply bindo_np; [apply map_body_np; assumption|discriminate].
-    + destruct (pref (TMap t1 t2)); try discriminate. apply bindo_np; [apply map_body_np; assumption|discriminate].
-  - rewrite dec_var_tuple. cbv zeta. destruct gt; try discriminate; destruct (src_len src =? 0); try discriminate;
-      (apply bindo_np; [apply g_fields_np; exact H|discriminate]).
-  - rewrite dec_var_udt. cbv zeta. destruct gt; try discriminate; destruct (src_len src =? 0); try discriminate.
-    + apply bindo_np; [apply g_fields_np; exact H|discriminate].
-    + apply bindo_np; [apply g_fields_np; exact H|discriminate].
-    + destruct (is_string_ty gt1); [|discriminate]. apply bindo_np; [apply g_fields_np; exact H|discriminate].
-    + destruct (by_name_types fs0 names); [|discriminate]. apply bindo_np; [apply g_fields_np; exact H|discriminate].
-    + apply bindo_np; [apply g_fields_np; exact H|discriminate].
+  - rewrite dec_var_list. cbv zeta. destruct gt; np_step I.
+  - rewrite dec_var_set, dec_var_list. cbv zeta. destruct gt; np_step I.
+  - rewrite dec_var_map. cbv zeta. destruct gt; np_step I.
+  - rewrite dec_var_tuple. cbv zeta. destruct gt; np_step H.
+  - rewrite dec_var_udt. cbv zeta. destruct gt; np_step H.
 Qed.
 
 (* the refusal is what stands between the decoder and the panic: an interface-typed key holding a slice is not hashable *)
